@@ -309,6 +309,39 @@ package cdi
 //@                   (base(e.Mounts) == 0 || (old(e.ContainerEdits) != nil && base(e.Mounts) == old(base(e.Mounts))) || fresh(e.Mounts)) &&
 //@                   (base(e.AdditionalGIDs) == 0 || (old(e.ContainerEdits) != nil && base(e.AdditionalGIDs) == old(base(e.AdditionalGIDs))) || fresh(e.AdditionalGIDs)))
 
+//@   ensures[only C02.Env] implies(e != nil && o != nil && o.ContainerEdits != nil && old(e.ContainerEdits) != nil,
+//@                   len(e.Env) == old(len(e.Env)) + old(len(o.Env)) &&
+//@                   forall(p, 0 <= p && p < old(len(e.Env)), trig(pos(e.Env, p), e.Env[p] == old(e.Env[p]))) &&
+//@                   forall(p, old(len(e.Env)) <= p && p < len(e.Env), trig(pos(e.Env, p), e.Env[p] == old(o.Env[p - len(e.Env)]))))
+//@   ensures[only C02.Env] implies(e != nil && o != nil && o.ContainerEdits != nil && old(e.ContainerEdits) == nil,
+//@                   len(e.Env) == old(len(o.Env)) && forall(p, 0 <= p && p < len(e.Env), trig(pos(e.Env, p), e.Env[p] == old(o.Env[p]))))
+//@   ensures[only C02.DeviceNodes] implies(e != nil && o != nil && o.ContainerEdits != nil && old(e.ContainerEdits) != nil,
+//@                   len(e.DeviceNodes) == old(len(e.DeviceNodes)) + old(len(o.DeviceNodes)) &&
+//@                   forall(p, 0 <= p && p < old(len(e.DeviceNodes)), trig(pos(e.DeviceNodes, p), e.DeviceNodes[p] == old(e.DeviceNodes[p]))) &&
+//@                   forall(p, old(len(e.DeviceNodes)) <= p && p < len(e.DeviceNodes), trig(pos(e.DeviceNodes, p), e.DeviceNodes[p] == old(o.DeviceNodes[p - len(e.DeviceNodes)]))))
+//@   ensures[only C02.DeviceNodes] implies(e != nil && o != nil && o.ContainerEdits != nil && old(e.ContainerEdits) == nil,
+//@                   len(e.DeviceNodes) == old(len(o.DeviceNodes)) && forall(p, 0 <= p && p < len(e.DeviceNodes), trig(pos(e.DeviceNodes, p), e.DeviceNodes[p] == old(o.DeviceNodes[p]))))
+//@   ensures[only C02.Hooks] implies(e != nil && o != nil && o.ContainerEdits != nil && old(e.ContainerEdits) != nil,
+//@                   len(e.Hooks) == old(len(e.Hooks)) + old(len(o.Hooks)) &&
+//@                   forall(p, 0 <= p && p < old(len(e.Hooks)), trig(pos(e.Hooks, p), e.Hooks[p] == old(e.Hooks[p]))) &&
+//@                   forall(p, old(len(e.Hooks)) <= p && p < len(e.Hooks), trig(pos(e.Hooks, p), e.Hooks[p] == old(o.Hooks[p - len(e.Hooks)]))))
+//@   ensures[only C02.Hooks] implies(e != nil && o != nil && o.ContainerEdits != nil && old(e.ContainerEdits) == nil,
+//@                   len(e.Hooks) == old(len(o.Hooks)) && forall(p, 0 <= p && p < len(e.Hooks), trig(pos(e.Hooks, p), e.Hooks[p] == old(o.Hooks[p]))))
+//@   ensures[only C02.Mounts] implies(e != nil && o != nil && o.ContainerEdits != nil && old(e.ContainerEdits) != nil,
+//@                   len(e.Mounts) == old(len(e.Mounts)) + old(len(o.Mounts)) &&
+//@                   forall(p, 0 <= p && p < old(len(e.Mounts)), trig(pos(e.Mounts, p), e.Mounts[p] == old(e.Mounts[p]))) &&
+//@                   forall(p, old(len(e.Mounts)) <= p && p < len(e.Mounts), trig(pos(e.Mounts, p), e.Mounts[p] == old(o.Mounts[p - len(e.Mounts)]))))
+//@   ensures[only C02.Mounts] implies(e != nil && o != nil && o.ContainerEdits != nil && old(e.ContainerEdits) == nil,
+//@                   len(e.Mounts) == old(len(o.Mounts)) && forall(p, 0 <= p && p < len(e.Mounts), trig(pos(e.Mounts, p), e.Mounts[p] == old(o.Mounts[p]))))
+//@   ensures[only C02.AdditionalGIDs] implies(e != nil && o != nil && o.ContainerEdits != nil && old(e.ContainerEdits) != nil,
+//@                   len(e.AdditionalGIDs) == old(len(e.AdditionalGIDs)) + old(len(o.AdditionalGIDs)) &&
+//@                   forall(p, 0 <= p && p < old(len(e.AdditionalGIDs)), trig(pos(e.AdditionalGIDs, p), e.AdditionalGIDs[p] == old(e.AdditionalGIDs[p]))) &&
+//@                   forall(p, old(len(e.AdditionalGIDs)) <= p && p < len(e.AdditionalGIDs), trig(pos(e.AdditionalGIDs, p), e.AdditionalGIDs[p] == old(o.AdditionalGIDs[p - len(e.AdditionalGIDs)]))))
+//@   ensures[only C02.AdditionalGIDs] implies(e != nil && o != nil && o.ContainerEdits != nil && old(e.ContainerEdits) == nil,
+//@                   len(e.AdditionalGIDs) == old(len(o.AdditionalGIDs)) && forall(p, 0 <= p && p < len(e.AdditionalGIDs), trig(pos(e.AdditionalGIDs, p), e.AdditionalGIDs[p] == old(o.AdditionalGIDs[p]))))
+//@   ensures[only C02.IntelRdt] implies(e != nil && o != nil && o.ContainerEdits != nil,
+//@                   e.IntelRdt == ite(old(o.IntelRdt) != nil, old(o.IntelRdt), ite(old(e.ContainerEdits) == nil, nil, old(e.IntelRdt))))
+
 //@ func (e *ContainerEdits) Apply(spec *oci.Spec) (err error)
 //@   requires e == nil || e.ContainerEdits == nil || NoNilEntries(e.ContainerEdits)
 //@   loop 1 invariant specgen.Config == spec
@@ -319,6 +352,26 @@ package cdi
 //@   frametags C14
 //@   ensures implies(spec == nil, err != nil)
 
+// C02 oracle, from the statement: request k contributes the edits of its Spec file if no earlier resolved
+// request belongs to the same file, then the edits of the device itself. dv[k] is the device request k
+// resolved to (ghost copy of c.devices[devices[k]]), fst[k] whether k is the first request of its Spec file.
+//@ fn DvAt(dv intarray, k int) *Device = cast(dv[k], *Device)
+//@ pred FirstOfSpec(dv intarray, k int) = DvAt(dv, k) != nil &&
+//@        forall(j, 0 <= j && j < k, DvAt(dv, j) == nil || DvAt(dv, j).spec != DvAt(dv, k).spec)
+//@ fn RdtOf(e *ContainerEdits) *cdi.IntelRdt = ite(e.ContainerEdits == nil, nil, e.IntelRdt)
+//@ fn LenEnv(e *ContainerEdits) int = ite(e.ContainerEdits == nil, 0, len(e.Env))
+//@ fn DevEnvLen(d *Device) int = ite(d != nil, len(d.ContainerEdits.Env), 0)
+//@ fn LenDeviceNodes(e *ContainerEdits) int = ite(e.ContainerEdits == nil, 0, len(e.DeviceNodes))
+//@ fn DevDeviceNodesLen(d *Device) int = ite(d != nil, len(d.ContainerEdits.DeviceNodes), 0)
+//@ fn LenHooks(e *ContainerEdits) int = ite(e.ContainerEdits == nil, 0, len(e.Hooks))
+//@ fn DevHooksLen(d *Device) int = ite(d != nil, len(d.ContainerEdits.Hooks), 0)
+//@ fn LenMounts(e *ContainerEdits) int = ite(e.ContainerEdits == nil, 0, len(e.Mounts))
+//@ fn DevMountsLen(d *Device) int = ite(d != nil, len(d.ContainerEdits.Mounts), 0)
+//@ fn LenAdditionalGIDs(e *ContainerEdits) int = ite(e.ContainerEdits == nil, 0, len(e.AdditionalGIDs))
+//@ fn DevAdditionalGIDsLen(d *Device) int = ite(d != nil, len(d.ContainerEdits.AdditionalGIDs), 0)
+//@ fn RdtStep(dv intarray, fst boolarray, rdtIn intarray, k int) int = ite(DvAt(dv, k) == nil, rdtIn[k],
+//@        ite(DvAt(dv, k).ContainerEdits.IntelRdt != nil, cast(DvAt(dv, k).ContainerEdits.IntelRdt, int),
+//@        ite(fst[k] && DvAt(dv, k).spec.ContainerEdits.IntelRdt != nil, cast(DvAt(dv, k).spec.ContainerEdits.IntelRdt, int), rdtIn[k])))
 //@ func (c *Cache) InjectDevices(ociSpec *oci.Spec, devices []string) (unresolved []string, err error)
 //@   requires c != nil
 //@   preserves tags.cncf.io/container-device-interface/specs-go
@@ -327,20 +380,20 @@ package cdi
 //@   ghostvar a1 int
 //@   ghost at after call of refreshIfRequired: a1 = allocNow()
 //@   ghost at loop 1 body end: idx = ite(len(unresolved) > len(#hd_unresolved), store(idx, len(#hd_unresolved), #i - 1), idx)
-//@   ensures[C04] implies(ociSpec == nil, err != nil && unresolved == devices && preserved("github.com/opencontainers/runtime-spec/specs-go"))
-//@   ensures[C04] implies(ociSpec != nil, forall(j, 0 <= j && j < len(unresolved), 0 <= idx[j] && idx[j] < len(devices) &&
+//@   ensures[only C04] implies(ociSpec == nil, err != nil && unresolved == devices && preserved("github.com/opencontainers/runtime-spec/specs-go"))
+//@   ensures[only C04] implies(ociSpec != nil, forall(j, 0 <= j && j < len(unresolved), 0 <= idx[j] && idx[j] < len(devices) &&
 //@                        unresolved[j] == devices[idx[j]] && c.devices[devices[idx[j]]] == nil))
-//@   ensures[C04] implies(ociSpec != nil, forall(a, 0 <= a && a < len(unresolved), forall(b, a < b && b < len(unresolved), idx[a] < idx[b])))
-//@   ensures[C04] implies(ociSpec != nil && len(unresolved) > 0, forall(t, 0 <= t && t < len(devices), implies(c.devices[devices[t]] == nil,
+//@   ensures[only C04] implies(ociSpec != nil, forall(a, 0 <= a && a < len(unresolved), forall(b, a < b && b < len(unresolved), idx[a] < idx[b])))
+//@   ensures[only C04] implies(ociSpec != nil && len(unresolved) > 0, forall(t, 0 <= t && t < len(devices), implies(c.devices[devices[t]] == nil,
 //@                        exists(j, 0 <= j && j < len(unresolved), idx[j] == t))))
-//@   assert at call of Apply: forall(t, 0 <= t && t < len(devices), c.devices[devices[t]] != nil)
-//@   ensures[C04] implies(ociSpec != nil && len(unresolved) > 0, err != nil && preserved("github.com/opencontainers/runtime-spec/specs-go"))
-//@   ensures[C04] implies(err == nil, len(unresolved) == 0)
+//@   assert[only C04] at call of Apply: forall(t, 0 <= t && t < len(devices), c.devices[devices[t]] != nil)
+//@   ensures[only C04] implies(ociSpec != nil && len(unresolved) > 0, err != nil && preserved("github.com/opencontainers/runtime-spec/specs-go"))
+//@   ensures[only C04] implies(err == nil, len(unresolved) == 0)
 //@   loop 1 invariant base(unresolved) == 0 || fresh(unresolved)
-//@   loop 1 invariant forall(j, 0 <= j && j < len(unresolved), 0 <= idx[j] && idx[j] < #i &&
+//@   loop 1 invariant[only C04] forall(j, 0 <= j && j < len(unresolved), 0 <= idx[j] && idx[j] < #i &&
 //@                        unresolved[j] == devices[idx[j]] && c.devices[devices[idx[j]]] == nil)
-//@   loop 1 invariant forall(a, 0 <= a && a < len(unresolved), forall(b, a < b && b < len(unresolved), idx[a] < idx[b]))
-//@   loop 1 invariant forall(t, 0 <= t && t < #i, implies(c.devices[devices[t]] == nil,
+//@   loop 1 invariant[only C04] forall(a, 0 <= a && a < len(unresolved), forall(b, a < b && b < len(unresolved), idx[a] < idx[b]))
+//@   loop 1 invariant[only C04] forall(t, 0 <= t && t < #i, implies(c.devices[devices[t]] == nil,
 //@                        exists(j, 0 <= j && j < len(unresolved), idx[j] == t)))
 //@   loop 1 invariant edits != nil && fresh(edits) && (edits.ContainerEdits == nil || (fresh(edits.ContainerEdits) && OwnLists(edits.ContainerEdits)))
 //@   loop 1 invariant base(devices) == 0 || base(devices) != base(unresolved)
@@ -349,6 +402,216 @@ package cdi
 //@   loop 1 invariant CacheWF(c)
 //@   loop 1 invariant CacheBefore(c, a1)
 //@   loop 1 invariant own(edits) > a1 && (edits.ContainerEdits == nil || (own(edits.ContainerEdits) > a1 && ListsAfter(edits.ContainerEdits, a1)))
+// C02: the accumulated edit lists are the ordered composition. For each list X: offX[k] is its length when
+// request k is reached, midX[k] after the Spec-level part of k, endX[k] after the device part of k.
+//@   ghostvar fst boolarray
+//@   ghostvar dv intarray
+//@   ghostvar wit intarray
+//@   ghost at loop 1 body end: wit = ite(c.devices[devices[#i - 1]] != nil && !athead(has(specs, c.devices[devices[#i - 1]].spec)), store(wit, cast(c.devices[devices[#i - 1]].spec, int), #i - 1), wit)
+//@   ghostvar rdtIn intarray = constarr(0)
+//@   ghostvar rdtOut intarray
+//@   ghost at loop 1 body end: dv = store(dv, #i - 1, cast(c.devices[devices[#i - 1]], int))
+//@   ghost at loop 1 body end: fst = store(fst, #i - 1, c.devices[devices[#i - 1]] != nil && !athead(has(specs, c.devices[devices[#i - 1]].spec)))
+//@   ghost at loop 1 body end: rdtIn = store(rdtIn, #i, cast(RdtOf(edits), int))
+//@   ghost at loop 1 body end: rdtOut = store(rdtOut, #i - 1, cast(RdtOf(edits), int))
+//@   ghostvar offEnv intarray = constarr(0)
+//@   ghostvar midEnv intarray
+//@   ghostvar endEnv intarray
+//@   ghost at loop 1 body end: offEnv = store(offEnv, #i, LenEnv(edits))
+//@   ghost at loop 1 body end: midEnv = store(midEnv, #i - 1, LenEnv(edits) - DevEnvLen(c.devices[devices[#i - 1]]))
+//@   ghost at loop 1 body end: endEnv = store(endEnv, #i - 1, LenEnv(edits))
+//@   ghostvar offDeviceNodes intarray = constarr(0)
+//@   ghostvar midDeviceNodes intarray
+//@   ghostvar endDeviceNodes intarray
+//@   ghost at loop 1 body end: offDeviceNodes = store(offDeviceNodes, #i, LenDeviceNodes(edits))
+//@   ghost at loop 1 body end: midDeviceNodes = store(midDeviceNodes, #i - 1, LenDeviceNodes(edits) - DevDeviceNodesLen(c.devices[devices[#i - 1]]))
+//@   ghost at loop 1 body end: endDeviceNodes = store(endDeviceNodes, #i - 1, LenDeviceNodes(edits))
+//@   ghostvar offHooks intarray = constarr(0)
+//@   ghostvar midHooks intarray
+//@   ghostvar endHooks intarray
+//@   ghost at loop 1 body end: offHooks = store(offHooks, #i, LenHooks(edits))
+//@   ghost at loop 1 body end: midHooks = store(midHooks, #i - 1, LenHooks(edits) - DevHooksLen(c.devices[devices[#i - 1]]))
+//@   ghost at loop 1 body end: endHooks = store(endHooks, #i - 1, LenHooks(edits))
+//@   ghostvar offMounts intarray = constarr(0)
+//@   ghostvar midMounts intarray
+//@   ghostvar endMounts intarray
+//@   ghost at loop 1 body end: offMounts = store(offMounts, #i, LenMounts(edits))
+//@   ghost at loop 1 body end: midMounts = store(midMounts, #i - 1, LenMounts(edits) - DevMountsLen(c.devices[devices[#i - 1]]))
+//@   ghost at loop 1 body end: endMounts = store(endMounts, #i - 1, LenMounts(edits))
+//@   ghostvar offAdditionalGIDs intarray = constarr(0)
+//@   ghostvar midAdditionalGIDs intarray
+//@   ghostvar endAdditionalGIDs intarray
+//@   ghost at loop 1 body end: offAdditionalGIDs = store(offAdditionalGIDs, #i, LenAdditionalGIDs(edits))
+//@   ghost at loop 1 body end: midAdditionalGIDs = store(midAdditionalGIDs, #i - 1, LenAdditionalGIDs(edits) - DevAdditionalGIDsLen(c.devices[devices[#i - 1]]))
+//@   ghost at loop 1 body end: endAdditionalGIDs = store(endAdditionalGIDs, #i - 1, LenAdditionalGIDs(edits))
+//@   assert[only C02.Order] at loop 1 body end: forall(sp, *Spec, true, trig(has(specs, sp), iff(has(specs, sp), athead(has(specs, sp)) || (DvAt(dv, #i - 1) != nil && sp == DvAt(dv, #i - 1).spec))))
+//@   loop 1 invariant[only C02] specs != nil && fresh(specs)
+//@   loop 1 invariant[only C02] base(unresolved) == 0 || own(unresolved) > a1
+//@   loop 1 invariant[only C02] forall(k, 0 <= k && k < #i, trig(dv[k], DvAt(dv, k) == c.devices[devices[k]]))
+//@   loop 1 invariant[only C02] forall(k, 0 <= k && k < #i, trig(dv[k], implies(fst[k], DvAt(dv, k) != nil)))
+//@   loop 1 invariant[only C02.Order] forall(j, 0 <= j && j < #i, trig(dv[j], implies(DvAt(dv, j) != nil, has(specs, DvAt(dv, j).spec))))
+//@   loop 1 invariant[only C02.Order] forall(sp, *Spec, true, trig(has(specs, sp), implies(has(specs, sp), 0 <= wit[cast(sp, int)] && wit[cast(sp, int)] < #i &&
+//@                        DvAt(dv, wit[cast(sp, int)]) != nil && DvAt(dv, wit[cast(sp, int)]).spec == sp)))
+//@   loop 1 invariant[only C02.Order] forall(k, 0 <= k && k < #i, trig(dv[k], implies(DvAt(dv, k) == nil, base(unresolved) != 0)))
+//@   loop 1 invariant[only C02.Order] forall(k, 0 <= k && k < #i, trig(dv[k], iff(fst[k], FirstOfSpec(dv, k))))
+//@   assert[only C02.Env] at loop 1 body end: LenEnv(edits) == athead(LenEnv(edits)) + ite(fst[#i - 1], len(DvAt(dv, #i - 1).spec.ContainerEdits.Env), 0) + DevEnvLen(DvAt(dv, #i - 1))
+//@   assert[only C02.Env] at loop 1 body end: offEnv[#i - 1] == athead(LenEnv(edits)) && midEnv[#i - 1] == offEnv[#i - 1] + ite(fst[#i - 1], len(DvAt(dv, #i - 1).spec.ContainerEdits.Env), 0) &&
+//@                        endEnv[#i - 1] == midEnv[#i - 1] + DevEnvLen(DvAt(dv, #i - 1)) && endEnv[#i - 1] == offEnv[#i]
+//@   assert[only C02.Env] at loop 1 body end: forall(p, 0 <= p && p < athead(LenEnv(edits)), trig(pos(edits.Env, p), edits.Env[p] == athead(edits.Env[p])))
+//@   assert[only C02.Env] at loop 1 body end: forall(p, midEnv[#i - 1] <= p && p < endEnv[#i - 1], trig(pos(edits.Env, p),
+//@                        edits.Env[p] == DvAt(dv, #i - 1).ContainerEdits.Env[p - midEnv[#i - 1]]))
+//@   assert[only C02.Env] at loop 1 body end: forall(k, 0 <= k && k < #i - 1, trig(dv[k], implies(DvAt(dv, k) != nil,
+//@                        DvAt(dv, k).ContainerEdits.Env == athead(DvAt(dv, k).ContainerEdits.Env))))
+//@   assert[only C02.Env] at loop 1 body end: forall(k, 0 <= k && k < #i - 1, trig(dv[k], implies(DvAt(dv, k) != nil,
+//@                        DvAt(dv, k).spec.ContainerEdits.Env == athead(DvAt(dv, k).spec.ContainerEdits.Env))))
+//@   assert[only C02.Env] at loop 1 body end: forall(k, true, forall(q, 0 <= k && k < #i - 1 && DvAt(dv, k) != nil && 0 <= q && q < len(DvAt(dv, k).ContainerEdits.Env),
+//@                        trig(dv[k], pos(DvAt(dv, k).ContainerEdits.Env, q), DvAt(dv, k).ContainerEdits.Env[q] == athead(DvAt(dv, k).ContainerEdits.Env[q]))))
+//@   loop 1 invariant[only C02.Env] LenEnv(edits) == offEnv[#i] && offEnv[0] == 0
+//@   loop 1 invariant[only C02.Env] forall(k, 0 <= k && k < #i, trig(dv[k], 0 <= offEnv[k] && offEnv[k] <= midEnv[k] && midEnv[k] <= endEnv[k] && endEnv[k] <= offEnv[#i]))
+//@   loop 1 invariant[only C02.Env] forall(k, 0 <= k && k < #i, trig(dv[k], midEnv[k] == offEnv[k] + ite(fst[k], len(DvAt(dv, k).spec.ContainerEdits.Env), 0)))
+//@   loop 1 invariant[only C02.Env] forall(k, 0 <= k && k < #i, trig(dv[k], endEnv[k] == midEnv[k] + DevEnvLen(DvAt(dv, k))))
+//@   loop 1 invariant[only C02.Env] forall(k, 1 <= k && k <= #i, trig(offEnv[k], offEnv[k] == endEnv[k-1]))
+//@   loop 1 invariant[only C02.Env] forall(k, true, forall(p, 0 <= k && k < #i && offEnv[k] <= p && p < midEnv[k], trig(dv[k], pos(edits.Env, p),
+//@                        edits.Env[p] == DvAt(dv, k).spec.ContainerEdits.Env[p - offEnv[k]])))
+//@   loop 1 invariant[only C02.Env] forall(k, true, forall(p, 0 <= k && k < #i && midEnv[k] <= p && p < endEnv[k], trig(dv[k], pos(edits.Env, p),
+//@                        edits.Env[p] == DvAt(dv, k).ContainerEdits.Env[p - midEnv[k]])))
+//@   assert[only C02.Env] at call of Apply: LenEnv(edits) == offEnv[len(devices)] && offEnv[0] == 0
+//@   assert[only C02.Env] at call of Apply: forall(k, 0 <= k && k < len(devices), trig(dv[k], 0 <= offEnv[k] && offEnv[k] <= midEnv[k] && midEnv[k] <= endEnv[k] && endEnv[k] <= offEnv[len(devices)]))
+//@   assert[only C02.Env] at call of Apply: forall(k, 0 <= k && k < len(devices), trig(dv[k], midEnv[k] == offEnv[k] + ite(fst[k], len(DvAt(dv, k).spec.ContainerEdits.Env), 0)))
+//@   assert[only C02.Env] at call of Apply: forall(k, 0 <= k && k < len(devices), trig(dv[k], endEnv[k] == midEnv[k] + DevEnvLen(DvAt(dv, k))))
+//@   assert[only C02.Env] at call of Apply: forall(k, 1 <= k && k <= len(devices), trig(offEnv[k], offEnv[k] == endEnv[k-1]))
+//@   assert[only C02.Env] at call of Apply: forall(k, true, forall(p, 0 <= k && k < len(devices) && offEnv[k] <= p && p < midEnv[k], trig(dv[k], pos(edits.Env, p),
+//@                        edits.Env[p] == DvAt(dv, k).spec.ContainerEdits.Env[p - offEnv[k]])))
+//@   assert[only C02.Env] at call of Apply: forall(k, true, forall(p, 0 <= k && k < len(devices) && midEnv[k] <= p && p < endEnv[k], trig(dv[k], pos(edits.Env, p),
+//@                        edits.Env[p] == DvAt(dv, k).ContainerEdits.Env[p - midEnv[k]])))
+//@   assert[only C02.DeviceNodes] at loop 1 body end: LenDeviceNodes(edits) == athead(LenDeviceNodes(edits)) + ite(fst[#i - 1], len(DvAt(dv, #i - 1).spec.ContainerEdits.DeviceNodes), 0) + DevDeviceNodesLen(DvAt(dv, #i - 1))
+//@   assert[only C02.DeviceNodes] at loop 1 body end: offDeviceNodes[#i - 1] == athead(LenDeviceNodes(edits)) && midDeviceNodes[#i - 1] == offDeviceNodes[#i - 1] + ite(fst[#i - 1], len(DvAt(dv, #i - 1).spec.ContainerEdits.DeviceNodes), 0) &&
+//@                        endDeviceNodes[#i - 1] == midDeviceNodes[#i - 1] + DevDeviceNodesLen(DvAt(dv, #i - 1)) && endDeviceNodes[#i - 1] == offDeviceNodes[#i]
+//@   assert[only C02.DeviceNodes] at loop 1 body end: forall(p, 0 <= p && p < athead(LenDeviceNodes(edits)), trig(pos(edits.DeviceNodes, p), edits.DeviceNodes[p] == athead(edits.DeviceNodes[p])))
+//@   assert[only C02.DeviceNodes] at loop 1 body end: forall(p, midDeviceNodes[#i - 1] <= p && p < endDeviceNodes[#i - 1], trig(pos(edits.DeviceNodes, p),
+//@                        edits.DeviceNodes[p] == DvAt(dv, #i - 1).ContainerEdits.DeviceNodes[p - midDeviceNodes[#i - 1]]))
+//@   assert[only C02.DeviceNodes] at loop 1 body end: forall(k, 0 <= k && k < #i - 1, trig(dv[k], implies(DvAt(dv, k) != nil,
+//@                        DvAt(dv, k).ContainerEdits.DeviceNodes == athead(DvAt(dv, k).ContainerEdits.DeviceNodes))))
+//@   assert[only C02.DeviceNodes] at loop 1 body end: forall(k, 0 <= k && k < #i - 1, trig(dv[k], implies(DvAt(dv, k) != nil,
+//@                        DvAt(dv, k).spec.ContainerEdits.DeviceNodes == athead(DvAt(dv, k).spec.ContainerEdits.DeviceNodes))))
+//@   assert[only C02.DeviceNodes] at loop 1 body end: forall(k, true, forall(q, 0 <= k && k < #i - 1 && DvAt(dv, k) != nil && 0 <= q && q < len(DvAt(dv, k).ContainerEdits.DeviceNodes),
+//@                        trig(dv[k], pos(DvAt(dv, k).ContainerEdits.DeviceNodes, q), DvAt(dv, k).ContainerEdits.DeviceNodes[q] == athead(DvAt(dv, k).ContainerEdits.DeviceNodes[q]))))
+//@   loop 1 invariant[only C02.DeviceNodes] LenDeviceNodes(edits) == offDeviceNodes[#i] && offDeviceNodes[0] == 0
+//@   loop 1 invariant[only C02.DeviceNodes] forall(k, 0 <= k && k < #i, trig(dv[k], 0 <= offDeviceNodes[k] && offDeviceNodes[k] <= midDeviceNodes[k] && midDeviceNodes[k] <= endDeviceNodes[k] && endDeviceNodes[k] <= offDeviceNodes[#i]))
+//@   loop 1 invariant[only C02.DeviceNodes] forall(k, 0 <= k && k < #i, trig(dv[k], midDeviceNodes[k] == offDeviceNodes[k] + ite(fst[k], len(DvAt(dv, k).spec.ContainerEdits.DeviceNodes), 0)))
+//@   loop 1 invariant[only C02.DeviceNodes] forall(k, 0 <= k && k < #i, trig(dv[k], endDeviceNodes[k] == midDeviceNodes[k] + DevDeviceNodesLen(DvAt(dv, k))))
+//@   loop 1 invariant[only C02.DeviceNodes] forall(k, 1 <= k && k <= #i, trig(offDeviceNodes[k], offDeviceNodes[k] == endDeviceNodes[k-1]))
+//@   loop 1 invariant[only C02.DeviceNodes] forall(k, true, forall(p, 0 <= k && k < #i && offDeviceNodes[k] <= p && p < midDeviceNodes[k], trig(dv[k], pos(edits.DeviceNodes, p),
+//@                        edits.DeviceNodes[p] == DvAt(dv, k).spec.ContainerEdits.DeviceNodes[p - offDeviceNodes[k]])))
+//@   loop 1 invariant[only C02.DeviceNodes] forall(k, true, forall(p, 0 <= k && k < #i && midDeviceNodes[k] <= p && p < endDeviceNodes[k], trig(dv[k], pos(edits.DeviceNodes, p),
+//@                        edits.DeviceNodes[p] == DvAt(dv, k).ContainerEdits.DeviceNodes[p - midDeviceNodes[k]])))
+//@   assert[only C02.DeviceNodes] at call of Apply: LenDeviceNodes(edits) == offDeviceNodes[len(devices)] && offDeviceNodes[0] == 0
+//@   assert[only C02.DeviceNodes] at call of Apply: forall(k, 0 <= k && k < len(devices), trig(dv[k], 0 <= offDeviceNodes[k] && offDeviceNodes[k] <= midDeviceNodes[k] && midDeviceNodes[k] <= endDeviceNodes[k] && endDeviceNodes[k] <= offDeviceNodes[len(devices)]))
+//@   assert[only C02.DeviceNodes] at call of Apply: forall(k, 0 <= k && k < len(devices), trig(dv[k], midDeviceNodes[k] == offDeviceNodes[k] + ite(fst[k], len(DvAt(dv, k).spec.ContainerEdits.DeviceNodes), 0)))
+//@   assert[only C02.DeviceNodes] at call of Apply: forall(k, 0 <= k && k < len(devices), trig(dv[k], endDeviceNodes[k] == midDeviceNodes[k] + DevDeviceNodesLen(DvAt(dv, k))))
+//@   assert[only C02.DeviceNodes] at call of Apply: forall(k, 1 <= k && k <= len(devices), trig(offDeviceNodes[k], offDeviceNodes[k] == endDeviceNodes[k-1]))
+//@   assert[only C02.DeviceNodes] at call of Apply: forall(k, true, forall(p, 0 <= k && k < len(devices) && offDeviceNodes[k] <= p && p < midDeviceNodes[k], trig(dv[k], pos(edits.DeviceNodes, p),
+//@                        edits.DeviceNodes[p] == DvAt(dv, k).spec.ContainerEdits.DeviceNodes[p - offDeviceNodes[k]])))
+//@   assert[only C02.DeviceNodes] at call of Apply: forall(k, true, forall(p, 0 <= k && k < len(devices) && midDeviceNodes[k] <= p && p < endDeviceNodes[k], trig(dv[k], pos(edits.DeviceNodes, p),
+//@                        edits.DeviceNodes[p] == DvAt(dv, k).ContainerEdits.DeviceNodes[p - midDeviceNodes[k]])))
+//@   assert[only C02.Hooks] at loop 1 body end: LenHooks(edits) == athead(LenHooks(edits)) + ite(fst[#i - 1], len(DvAt(dv, #i - 1).spec.ContainerEdits.Hooks), 0) + DevHooksLen(DvAt(dv, #i - 1))
+//@   assert[only C02.Hooks] at loop 1 body end: offHooks[#i - 1] == athead(LenHooks(edits)) && midHooks[#i - 1] == offHooks[#i - 1] + ite(fst[#i - 1], len(DvAt(dv, #i - 1).spec.ContainerEdits.Hooks), 0) &&
+//@                        endHooks[#i - 1] == midHooks[#i - 1] + DevHooksLen(DvAt(dv, #i - 1)) && endHooks[#i - 1] == offHooks[#i]
+//@   assert[only C02.Hooks] at loop 1 body end: forall(p, 0 <= p && p < athead(LenHooks(edits)), trig(pos(edits.Hooks, p), edits.Hooks[p] == athead(edits.Hooks[p])))
+//@   assert[only C02.Hooks] at loop 1 body end: forall(p, midHooks[#i - 1] <= p && p < endHooks[#i - 1], trig(pos(edits.Hooks, p),
+//@                        edits.Hooks[p] == DvAt(dv, #i - 1).ContainerEdits.Hooks[p - midHooks[#i - 1]]))
+//@   assert[only C02.Hooks] at loop 1 body end: forall(k, 0 <= k && k < #i - 1, trig(dv[k], implies(DvAt(dv, k) != nil,
+//@                        DvAt(dv, k).ContainerEdits.Hooks == athead(DvAt(dv, k).ContainerEdits.Hooks))))
+//@   assert[only C02.Hooks] at loop 1 body end: forall(k, 0 <= k && k < #i - 1, trig(dv[k], implies(DvAt(dv, k) != nil,
+//@                        DvAt(dv, k).spec.ContainerEdits.Hooks == athead(DvAt(dv, k).spec.ContainerEdits.Hooks))))
+//@   assert[only C02.Hooks] at loop 1 body end: forall(k, true, forall(q, 0 <= k && k < #i - 1 && DvAt(dv, k) != nil && 0 <= q && q < len(DvAt(dv, k).ContainerEdits.Hooks),
+//@                        trig(dv[k], pos(DvAt(dv, k).ContainerEdits.Hooks, q), DvAt(dv, k).ContainerEdits.Hooks[q] == athead(DvAt(dv, k).ContainerEdits.Hooks[q]))))
+//@   loop 1 invariant[only C02.Hooks] LenHooks(edits) == offHooks[#i] && offHooks[0] == 0
+//@   loop 1 invariant[only C02.Hooks] forall(k, 0 <= k && k < #i, trig(dv[k], 0 <= offHooks[k] && offHooks[k] <= midHooks[k] && midHooks[k] <= endHooks[k] && endHooks[k] <= offHooks[#i]))
+//@   loop 1 invariant[only C02.Hooks] forall(k, 0 <= k && k < #i, trig(dv[k], midHooks[k] == offHooks[k] + ite(fst[k], len(DvAt(dv, k).spec.ContainerEdits.Hooks), 0)))
+//@   loop 1 invariant[only C02.Hooks] forall(k, 0 <= k && k < #i, trig(dv[k], endHooks[k] == midHooks[k] + DevHooksLen(DvAt(dv, k))))
+//@   loop 1 invariant[only C02.Hooks] forall(k, 1 <= k && k <= #i, trig(offHooks[k], offHooks[k] == endHooks[k-1]))
+//@   loop 1 invariant[only C02.Hooks] forall(k, true, forall(p, 0 <= k && k < #i && offHooks[k] <= p && p < midHooks[k], trig(dv[k], pos(edits.Hooks, p),
+//@                        edits.Hooks[p] == DvAt(dv, k).spec.ContainerEdits.Hooks[p - offHooks[k]])))
+//@   loop 1 invariant[only C02.Hooks] forall(k, true, forall(p, 0 <= k && k < #i && midHooks[k] <= p && p < endHooks[k], trig(dv[k], pos(edits.Hooks, p),
+//@                        edits.Hooks[p] == DvAt(dv, k).ContainerEdits.Hooks[p - midHooks[k]])))
+//@   assert[only C02.Hooks] at call of Apply: LenHooks(edits) == offHooks[len(devices)] && offHooks[0] == 0
+//@   assert[only C02.Hooks] at call of Apply: forall(k, 0 <= k && k < len(devices), trig(dv[k], 0 <= offHooks[k] && offHooks[k] <= midHooks[k] && midHooks[k] <= endHooks[k] && endHooks[k] <= offHooks[len(devices)]))
+//@   assert[only C02.Hooks] at call of Apply: forall(k, 0 <= k && k < len(devices), trig(dv[k], midHooks[k] == offHooks[k] + ite(fst[k], len(DvAt(dv, k).spec.ContainerEdits.Hooks), 0)))
+//@   assert[only C02.Hooks] at call of Apply: forall(k, 0 <= k && k < len(devices), trig(dv[k], endHooks[k] == midHooks[k] + DevHooksLen(DvAt(dv, k))))
+//@   assert[only C02.Hooks] at call of Apply: forall(k, 1 <= k && k <= len(devices), trig(offHooks[k], offHooks[k] == endHooks[k-1]))
+//@   assert[only C02.Hooks] at call of Apply: forall(k, true, forall(p, 0 <= k && k < len(devices) && offHooks[k] <= p && p < midHooks[k], trig(dv[k], pos(edits.Hooks, p),
+//@                        edits.Hooks[p] == DvAt(dv, k).spec.ContainerEdits.Hooks[p - offHooks[k]])))
+//@   assert[only C02.Hooks] at call of Apply: forall(k, true, forall(p, 0 <= k && k < len(devices) && midHooks[k] <= p && p < endHooks[k], trig(dv[k], pos(edits.Hooks, p),
+//@                        edits.Hooks[p] == DvAt(dv, k).ContainerEdits.Hooks[p - midHooks[k]])))
+//@   assert[only C02.Mounts] at loop 1 body end: LenMounts(edits) == athead(LenMounts(edits)) + ite(fst[#i - 1], len(DvAt(dv, #i - 1).spec.ContainerEdits.Mounts), 0) + DevMountsLen(DvAt(dv, #i - 1))
+//@   assert[only C02.Mounts] at loop 1 body end: offMounts[#i - 1] == athead(LenMounts(edits)) && midMounts[#i - 1] == offMounts[#i - 1] + ite(fst[#i - 1], len(DvAt(dv, #i - 1).spec.ContainerEdits.Mounts), 0) &&
+//@                        endMounts[#i - 1] == midMounts[#i - 1] + DevMountsLen(DvAt(dv, #i - 1)) && endMounts[#i - 1] == offMounts[#i]
+//@   assert[only C02.Mounts] at loop 1 body end: forall(p, 0 <= p && p < athead(LenMounts(edits)), trig(pos(edits.Mounts, p), edits.Mounts[p] == athead(edits.Mounts[p])))
+//@   assert[only C02.Mounts] at loop 1 body end: forall(p, midMounts[#i - 1] <= p && p < endMounts[#i - 1], trig(pos(edits.Mounts, p),
+//@                        edits.Mounts[p] == DvAt(dv, #i - 1).ContainerEdits.Mounts[p - midMounts[#i - 1]]))
+//@   assert[only C02.Mounts] at loop 1 body end: forall(k, 0 <= k && k < #i - 1, trig(dv[k], implies(DvAt(dv, k) != nil,
+//@                        DvAt(dv, k).ContainerEdits.Mounts == athead(DvAt(dv, k).ContainerEdits.Mounts))))
+//@   assert[only C02.Mounts] at loop 1 body end: forall(k, 0 <= k && k < #i - 1, trig(dv[k], implies(DvAt(dv, k) != nil,
+//@                        DvAt(dv, k).spec.ContainerEdits.Mounts == athead(DvAt(dv, k).spec.ContainerEdits.Mounts))))
+//@   assert[only C02.Mounts] at loop 1 body end: forall(k, true, forall(q, 0 <= k && k < #i - 1 && DvAt(dv, k) != nil && 0 <= q && q < len(DvAt(dv, k).ContainerEdits.Mounts),
+//@                        trig(dv[k], pos(DvAt(dv, k).ContainerEdits.Mounts, q), DvAt(dv, k).ContainerEdits.Mounts[q] == athead(DvAt(dv, k).ContainerEdits.Mounts[q]))))
+//@   loop 1 invariant[only C02.Mounts] LenMounts(edits) == offMounts[#i] && offMounts[0] == 0
+//@   loop 1 invariant[only C02.Mounts] forall(k, 0 <= k && k < #i, trig(dv[k], 0 <= offMounts[k] && offMounts[k] <= midMounts[k] && midMounts[k] <= endMounts[k] && endMounts[k] <= offMounts[#i]))
+//@   loop 1 invariant[only C02.Mounts] forall(k, 0 <= k && k < #i, trig(dv[k], midMounts[k] == offMounts[k] + ite(fst[k], len(DvAt(dv, k).spec.ContainerEdits.Mounts), 0)))
+//@   loop 1 invariant[only C02.Mounts] forall(k, 0 <= k && k < #i, trig(dv[k], endMounts[k] == midMounts[k] + DevMountsLen(DvAt(dv, k))))
+//@   loop 1 invariant[only C02.Mounts] forall(k, 1 <= k && k <= #i, trig(offMounts[k], offMounts[k] == endMounts[k-1]))
+//@   loop 1 invariant[only C02.Mounts] forall(k, true, forall(p, 0 <= k && k < #i && offMounts[k] <= p && p < midMounts[k], trig(dv[k], pos(edits.Mounts, p),
+//@                        edits.Mounts[p] == DvAt(dv, k).spec.ContainerEdits.Mounts[p - offMounts[k]])))
+//@   loop 1 invariant[only C02.Mounts] forall(k, true, forall(p, 0 <= k && k < #i && midMounts[k] <= p && p < endMounts[k], trig(dv[k], pos(edits.Mounts, p),
+//@                        edits.Mounts[p] == DvAt(dv, k).ContainerEdits.Mounts[p - midMounts[k]])))
+//@   assert[only C02.Mounts] at call of Apply: LenMounts(edits) == offMounts[len(devices)] && offMounts[0] == 0
+//@   assert[only C02.Mounts] at call of Apply: forall(k, 0 <= k && k < len(devices), trig(dv[k], 0 <= offMounts[k] && offMounts[k] <= midMounts[k] && midMounts[k] <= endMounts[k] && endMounts[k] <= offMounts[len(devices)]))
+//@   assert[only C02.Mounts] at call of Apply: forall(k, 0 <= k && k < len(devices), trig(dv[k], midMounts[k] == offMounts[k] + ite(fst[k], len(DvAt(dv, k).spec.ContainerEdits.Mounts), 0)))
+//@   assert[only C02.Mounts] at call of Apply: forall(k, 0 <= k && k < len(devices), trig(dv[k], endMounts[k] == midMounts[k] + DevMountsLen(DvAt(dv, k))))
+//@   assert[only C02.Mounts] at call of Apply: forall(k, 1 <= k && k <= len(devices), trig(offMounts[k], offMounts[k] == endMounts[k-1]))
+//@   assert[only C02.Mounts] at call of Apply: forall(k, true, forall(p, 0 <= k && k < len(devices) && offMounts[k] <= p && p < midMounts[k], trig(dv[k], pos(edits.Mounts, p),
+//@                        edits.Mounts[p] == DvAt(dv, k).spec.ContainerEdits.Mounts[p - offMounts[k]])))
+//@   assert[only C02.Mounts] at call of Apply: forall(k, true, forall(p, 0 <= k && k < len(devices) && midMounts[k] <= p && p < endMounts[k], trig(dv[k], pos(edits.Mounts, p),
+//@                        edits.Mounts[p] == DvAt(dv, k).ContainerEdits.Mounts[p - midMounts[k]])))
+//@   assert[only C02.AdditionalGIDs] at loop 1 body end: LenAdditionalGIDs(edits) == athead(LenAdditionalGIDs(edits)) + ite(fst[#i - 1], len(DvAt(dv, #i - 1).spec.ContainerEdits.AdditionalGIDs), 0) + DevAdditionalGIDsLen(DvAt(dv, #i - 1))
+//@   assert[only C02.AdditionalGIDs] at loop 1 body end: offAdditionalGIDs[#i - 1] == athead(LenAdditionalGIDs(edits)) && midAdditionalGIDs[#i - 1] == offAdditionalGIDs[#i - 1] + ite(fst[#i - 1], len(DvAt(dv, #i - 1).spec.ContainerEdits.AdditionalGIDs), 0) &&
+//@                        endAdditionalGIDs[#i - 1] == midAdditionalGIDs[#i - 1] + DevAdditionalGIDsLen(DvAt(dv, #i - 1)) && endAdditionalGIDs[#i - 1] == offAdditionalGIDs[#i]
+//@   assert[only C02.AdditionalGIDs] at loop 1 body end: forall(p, 0 <= p && p < athead(LenAdditionalGIDs(edits)), trig(pos(edits.AdditionalGIDs, p), edits.AdditionalGIDs[p] == athead(edits.AdditionalGIDs[p])))
+//@   assert[only C02.AdditionalGIDs] at loop 1 body end: forall(p, midAdditionalGIDs[#i - 1] <= p && p < endAdditionalGIDs[#i - 1], trig(pos(edits.AdditionalGIDs, p),
+//@                        edits.AdditionalGIDs[p] == DvAt(dv, #i - 1).ContainerEdits.AdditionalGIDs[p - midAdditionalGIDs[#i - 1]]))
+//@   assert[only C02.AdditionalGIDs] at loop 1 body end: forall(k, 0 <= k && k < #i - 1, trig(dv[k], implies(DvAt(dv, k) != nil,
+//@                        DvAt(dv, k).ContainerEdits.AdditionalGIDs == athead(DvAt(dv, k).ContainerEdits.AdditionalGIDs))))
+//@   assert[only C02.AdditionalGIDs] at loop 1 body end: forall(k, 0 <= k && k < #i - 1, trig(dv[k], implies(DvAt(dv, k) != nil,
+//@                        DvAt(dv, k).spec.ContainerEdits.AdditionalGIDs == athead(DvAt(dv, k).spec.ContainerEdits.AdditionalGIDs))))
+//@   assert[only C02.AdditionalGIDs] at loop 1 body end: forall(k, true, forall(q, 0 <= k && k < #i - 1 && DvAt(dv, k) != nil && 0 <= q && q < len(DvAt(dv, k).ContainerEdits.AdditionalGIDs),
+//@                        trig(dv[k], pos(DvAt(dv, k).ContainerEdits.AdditionalGIDs, q), DvAt(dv, k).ContainerEdits.AdditionalGIDs[q] == athead(DvAt(dv, k).ContainerEdits.AdditionalGIDs[q]))))
+//@   loop 1 invariant[only C02.AdditionalGIDs] LenAdditionalGIDs(edits) == offAdditionalGIDs[#i] && offAdditionalGIDs[0] == 0
+//@   loop 1 invariant[only C02.AdditionalGIDs] forall(k, 0 <= k && k < #i, trig(dv[k], 0 <= offAdditionalGIDs[k] && offAdditionalGIDs[k] <= midAdditionalGIDs[k] && midAdditionalGIDs[k] <= endAdditionalGIDs[k] && endAdditionalGIDs[k] <= offAdditionalGIDs[#i]))
+//@   loop 1 invariant[only C02.AdditionalGIDs] forall(k, 0 <= k && k < #i, trig(dv[k], midAdditionalGIDs[k] == offAdditionalGIDs[k] + ite(fst[k], len(DvAt(dv, k).spec.ContainerEdits.AdditionalGIDs), 0)))
+//@   loop 1 invariant[only C02.AdditionalGIDs] forall(k, 0 <= k && k < #i, trig(dv[k], endAdditionalGIDs[k] == midAdditionalGIDs[k] + DevAdditionalGIDsLen(DvAt(dv, k))))
+//@   loop 1 invariant[only C02.AdditionalGIDs] forall(k, 1 <= k && k <= #i, trig(offAdditionalGIDs[k], offAdditionalGIDs[k] == endAdditionalGIDs[k-1]))
+//@   loop 1 invariant[only C02.AdditionalGIDs] forall(k, true, forall(p, 0 <= k && k < #i && offAdditionalGIDs[k] <= p && p < midAdditionalGIDs[k], trig(dv[k], pos(edits.AdditionalGIDs, p),
+//@                        edits.AdditionalGIDs[p] == DvAt(dv, k).spec.ContainerEdits.AdditionalGIDs[p - offAdditionalGIDs[k]])))
+//@   loop 1 invariant[only C02.AdditionalGIDs] forall(k, true, forall(p, 0 <= k && k < #i && midAdditionalGIDs[k] <= p && p < endAdditionalGIDs[k], trig(dv[k], pos(edits.AdditionalGIDs, p),
+//@                        edits.AdditionalGIDs[p] == DvAt(dv, k).ContainerEdits.AdditionalGIDs[p - midAdditionalGIDs[k]])))
+//@   assert[only C02.AdditionalGIDs] at call of Apply: LenAdditionalGIDs(edits) == offAdditionalGIDs[len(devices)] && offAdditionalGIDs[0] == 0
+//@   assert[only C02.AdditionalGIDs] at call of Apply: forall(k, 0 <= k && k < len(devices), trig(dv[k], 0 <= offAdditionalGIDs[k] && offAdditionalGIDs[k] <= midAdditionalGIDs[k] && midAdditionalGIDs[k] <= endAdditionalGIDs[k] && endAdditionalGIDs[k] <= offAdditionalGIDs[len(devices)]))
+//@   assert[only C02.AdditionalGIDs] at call of Apply: forall(k, 0 <= k && k < len(devices), trig(dv[k], midAdditionalGIDs[k] == offAdditionalGIDs[k] + ite(fst[k], len(DvAt(dv, k).spec.ContainerEdits.AdditionalGIDs), 0)))
+//@   assert[only C02.AdditionalGIDs] at call of Apply: forall(k, 0 <= k && k < len(devices), trig(dv[k], endAdditionalGIDs[k] == midAdditionalGIDs[k] + DevAdditionalGIDsLen(DvAt(dv, k))))
+//@   assert[only C02.AdditionalGIDs] at call of Apply: forall(k, 1 <= k && k <= len(devices), trig(offAdditionalGIDs[k], offAdditionalGIDs[k] == endAdditionalGIDs[k-1]))
+//@   assert[only C02.AdditionalGIDs] at call of Apply: forall(k, true, forall(p, 0 <= k && k < len(devices) && offAdditionalGIDs[k] <= p && p < midAdditionalGIDs[k], trig(dv[k], pos(edits.AdditionalGIDs, p),
+//@                        edits.AdditionalGIDs[p] == DvAt(dv, k).spec.ContainerEdits.AdditionalGIDs[p - offAdditionalGIDs[k]])))
+//@   assert[only C02.AdditionalGIDs] at call of Apply: forall(k, true, forall(p, 0 <= k && k < len(devices) && midAdditionalGIDs[k] <= p && p < endAdditionalGIDs[k], trig(dv[k], pos(edits.AdditionalGIDs, p),
+//@                        edits.AdditionalGIDs[p] == DvAt(dv, k).ContainerEdits.AdditionalGIDs[p - midAdditionalGIDs[k]])))
+//@   loop 1 invariant[only C02.IntelRdt] cast(RdtOf(edits), int) == rdtIn[#i] && rdtIn[0] == 0
+//@   loop 1 invariant[only C02.IntelRdt] forall(k, 1 <= k && k <= #i, trig(rdtIn[k], rdtIn[k] == rdtOut[k-1]))
+//@   loop 1 invariant[only C02.IntelRdt] forall(k, 0 <= k && k < #i, trig(dv[k], rdtOut[k] == RdtStep(dv, fst, rdtIn, k)))
+//@   assert[only C02.IntelRdt] at call of Apply: cast(RdtOf(edits), int) == rdtIn[len(devices)] && rdtIn[0] == 0 &&
+//@                        forall(k, 1 <= k && k <= len(devices), trig(rdtIn[k], rdtIn[k] == rdtOut[k-1])) &&
+//@                        forall(k, 0 <= k && k < len(devices), trig(dv[k], rdtOut[k] == RdtStep(dv, fst, rdtIn, k)))
+//@   assert[only C02.Order] at call of Apply: forall(k, 0 <= k && k < len(devices), trig(dv[k], DvAt(dv, k) != nil && DvAt(dv, k) == c.devices[devices[k]] && iff(fst[k], FirstOfSpec(dv, k))))
+//@   assert[only C02] at call of Apply: #arg0 == edits && #arg1 == ociSpec
 
 // ---------------------------------------------------------------- Apply and helpers (C14: frame; C08: preconditions)
 
